@@ -159,8 +159,8 @@ def _probe_geff(res, inp, world, tr, closure, induced, tmp):
 
 
 PARTS = [
-    Part("csv", inputs("csv"), probe, quick=400, thorough=6000),
-    Part("geff", inputs("geff"), probe, quick=300, thorough=5000),
+    Part("csv", inputs("csv"), probe, quick=800, thorough=8000),
+    Part("geff", inputs("geff"), probe, quick=500, thorough=6000),
 ]
 
 
